@@ -43,7 +43,7 @@ def ref_meaning(cls, s):
     """The documented meaning of a lexeme, written independently of the code under test (docs/ and the beancount lexer it cites):
     strings drop the quotes and read `\\x` as the escape for n t r f b, else as x itself; an inline comment is what follows the `;` and
     the blanks (U+0020 only) after it; tags and links drop their sigil, meta keys their colon; accounts, currencies, indents and
-    flags mean their own text.  None = no independent reading here (block comments: bcindent / seq cells; numbers and dates: own cells)."""
+    blanks mean their own text.  None = no independent reading here (flags: the keyword txn means '*'; block comments: bcindent / seq cells; numbers and dates: own cells)."""
     if cls is models.EscapedString:
         body = s[1:-1]
         out = ''
@@ -70,7 +70,7 @@ def ref_meaning(cls, s):
         return s[1:]
     if cls is models.MetaKey:
         return s[:-1]
-    if cls in (models.Account, models.Currency, models.Indent, models.PostingFlag, models.TransactionFlag, models.Whitespace, models.Newline):
+    if cls in (models.Account, models.Currency, models.Indent, models.Whitespace, models.Newline):      # flags: the keyword txn means '*' - no independent reading here
         return s
     if cls is models.Bool:
         return s == 'TRUE'
